@@ -441,6 +441,7 @@ func init() {
 		c.runMemoNilResult(r, "memo.nilresult", all)
 		c.runHeaderSemicolon(r, "parse.headersemi", "wgsl/internal/parser")
 		c.runTemplateClose(r, "template.close", "wgsl/internal/parser")
+		c.runHelperDedupScope(r, "helper.dedupscope", all)
 		cnt := map[string]int{}
 		for _, o := range r.Obs {
 			if o.Verdict == "ok" || o.Verdict == "trivial" {
@@ -528,4 +529,108 @@ func (c *Ctx) runTemplateClose(r *Report, rule string, pkg string) {
 		})
 	}
 	r.inst("template.close", n)
+}
+
+// helper.dedupscope (C03-C05): a backend emits each helper function (wrapped
+// math overloads, constructors ...) once per MODULE. The set that remembers
+// which helpers have been written must therefore live as long as the module
+// is being written: a map that is created inside a function that runs once per
+// ir.Function (it has a *ir.Function parameter) and is used as the written-set
+// of an emission loop (lookup; continue when present; insert; emit) forgets
+// between functions, and two functions that need the same helper get it defined
+// twice (a redefinition error in the target language).
+func (c *Ctx) runHelperDedupScope(r *Report, rule string, pkgs func(string) bool) {
+	n := 0
+	for _, fn := range c.allFuncs() {
+		if !pkgs(fn.Pkg.Rel) || fn.Obj == nil {
+			continue
+		}
+		info := fn.Pkg.Info
+		sig := fn.Obj.Type().(*types.Signature)
+		perFunction := false
+		for i := 0; i < sig.Params().Len(); i++ {
+			if p, ok := sig.Params().At(i).Type().(*types.Pointer); ok && irTypeName(p.Elem()) == "Function" {
+				perFunction = true
+			}
+		}
+		if !perFunction {
+			continue
+		}
+		// only functions that also keep a written-set in a receiver field (module-lifetime helper writers)
+		hasFieldSet := false
+		ast.Inspect(fn.Decl.Body, func(m ast.Node) bool {
+			if ifs, ok := m.(*ast.IfStmt); ok && ifs.Init != nil {
+				if as, ok := ifs.Init.(*ast.AssignStmt); ok && len(as.Rhs) == 1 && len(as.Lhs) == 2 {
+					if ix, ok := ast.Unparen(as.Rhs[0]).(*ast.IndexExpr); ok {
+						if se, ok := ast.Unparen(ix.X).(*ast.SelectorExpr); ok {
+							if v, ok := info.Uses[se.Sel].(*types.Var); ok && v.IsField() {
+								hasFieldSet = true
+							}
+						}
+					}
+				}
+			}
+			return true
+		})
+		if !hasFieldSet {
+			continue
+		}
+		// written-set idiom: if _, done := M[key]; done { continue }  ...  M[key] = struct{}{}
+		ast.Inspect(fn.Decl.Body, func(m ast.Node) bool {
+			ifs, ok := m.(*ast.IfStmt)
+			if !ok || ifs.Init == nil || len(ifs.Body.List) != 1 {
+				return true
+			}
+			if br, ok := ifs.Body.List[0].(*ast.BranchStmt); !ok || br.Tok != token.CONTINUE {
+				return true
+			}
+			as, ok := ifs.Init.(*ast.AssignStmt)
+			if !ok || len(as.Rhs) != 1 || len(as.Lhs) != 2 {
+				return true
+			}
+			ix, ok := ast.Unparen(as.Rhs[0]).(*ast.IndexExpr)
+			if !ok {
+				return true
+			}
+			if _, isMap := info.TypeOf(ix.X).Underlying().(*types.Map); !isMap {
+				return true
+			}
+			// "continue when PRESENT" (a written-set), not "continue when absent" (a filter)
+			condID, ok1 := ast.Unparen(ifs.Cond).(*ast.Ident)
+			okID, ok2 := as.Lhs[1].(*ast.Ident)
+			if !ok1 || !ok2 || info.Uses[condID] != info.Defs[okID] {
+				return true
+			}
+			// does the loop body emit text after the guard? (a call with a string literal containing '(' )
+			emits := false
+			ast.Inspect(fn.Decl.Body, func(k ast.Node) bool {
+				if call, ok := k.(*ast.CallExpr); ok && call.Pos() > ifs.End() {
+					if se, ok := call.Fun.(*ast.SelectorExpr); ok && (strings.HasPrefix(se.Sel.Name, "write") || strings.HasPrefix(se.Sel.Name, "Write")) {
+						emits = true
+					}
+					for _, a := range call.Args {
+						if bl, ok := ast.Unparen(a).(*ast.BasicLit); ok && bl.Kind == token.STRING && strings.Contains(bl.Value, "(") {
+							emits = true
+						}
+					}
+				}
+				return !emits
+			})
+			if !emits {
+				return true
+			}
+			n++
+			cons := fn.id() + ":" + noSpace(types.ExprString(ix.X))
+			switch x := ast.Unparen(ix.X).(type) {
+			case *ast.Ident:
+				if v, ok := info.Uses[x].(*types.Var); ok && !v.IsField() && v.Pos() > fn.Decl.Pos() && v.Pos() < fn.Decl.End() {
+					r.viol(rule, cons, c.pos(ifs.Pos()), fn.id()+" remembers which helper definitions it has written in the local map "+x.Name+", but it runs once per function of the module: a helper needed by two functions is defined twice")
+					return true
+				}
+			}
+			r.ok(rule, cons, c.pos(ifs.Pos()), "")
+			return true
+		})
+	}
+	r.inst("helper.dedupscope", n)
 }
